@@ -41,6 +41,9 @@ def replay_line(line):
     tr = json.loads(line) if isinstance(line, str) else line
     src = {"kind": "gen_line", "line": tr}
     algo = tr["algo"]
+    if algo in ("tf", "unit"):
+        yield from replay_order_line(tr)
+        return
     if algo == "hop":
         D = build_dfa(tr["d1"])
         ch = Chooser("hop.pop", tr["schedule"], lambda x, w: set(x[0]) == set(w[0]) and x[1] == w[1])
@@ -91,6 +94,68 @@ def replay_line(line):
                "src": src}
         yield {"op": "sched_replay", "algo": "ec", "followed": ch.ok and ch.k == len(tr["schedule"]),
                "expected": sorted(tr["final"]), "actual": sorted(r or []), "src": src}
+
+
+class OrderChooser:
+    """dictates the order of a whole collection (the hook _verif.ordered)"""
+
+    def __init__(self, site, schedule):
+        self.site, self.schedule, self.used, self.ok = site, schedule, 0, True
+
+    def __call__(self, site, xs):
+        if site != self.site:
+            return None
+        by = {str(x): x for x in xs}
+        if set(by) != set(self.schedule) or len(by) != len(self.schedule):
+            self.ok = False
+            return None
+        self.used += 1
+        return [by[k] for k in self.schedule]
+
+
+def replay_order_line(tr):
+    from gambatools import _verif
+    import gambatools.dfa_algorithms as da
+    import gambatools.cfg_algorithms as ca
+    from gambatools.cfg import CFG, Rule, Alternative, Variable, Terminal
+    src = {"kind": "gen_line", "line": tr}
+    if tr["algo"] == "tf":
+        D = build_dfa(tr["d1"])
+        ch = OrderChooser("tf.order", tr["schedule"])
+        _verif.CHOOSER = ch
+        pre = ab.dfa(D)
+        try:
+            R, exc = guarded(lambda: da.dfa_minimize(D))
+        finally:
+            _verif.CHOOSER = None
+        _verif.take()
+        ev = {"op": "minimise", "algo": "dfa_minimize", "fa": pre, "exc": exc, "post": ab.dfa(D), "src": src}
+        if exc == "none":
+            ev["res"] = ab.dfa(R)
+        yield ev
+        yield {"op": "sched_replay", "algo": "tf", "followed": ch.ok and ch.used == 2,
+               "expected": sorted("{" + ",".join(sorted(b)) + "}" for b in tr["final"]),
+               "actual": sorted(R.Q) if exc == "none" else [exc], "src": src}
+    else:
+        def sym(x):
+            return Variable(x[1]) if x[0] == "v" else Terminal(x[1])
+        R0 = [Rule(Variable(r[0]), Alternative([sym(x) for x in r[1]])) for r in tr["rules"]]
+        G = CFG({Variable(v) for v in tr["vars"]}, {Terminal("a"), Terminal("b")}, R0, Variable(tr["start"]))
+        ch = OrderChooser("unit.var", tr["schedule"])
+        _verif.CHOOSER = ch
+        pre = ab.cfg(G)
+        try:
+            H, exc = guarded(lambda: ca.cfg_eliminate_unit_rules(G))
+        finally:
+            _verif.CHOOSER = None
+        _verif.take()
+        ev = {"op": "chomsky_phase", "phase": 3, "pre": pre, "post": ab.cfg(G), "exc": exc, "n": 3, "src": src}
+        if exc == "none":
+            ev["res"] = ab.cfg(H)
+        yield ev
+        yield {"op": "sched_replay", "algo": "unit", "followed": ch.ok and ch.used == 1,
+               "expected": [[r[0], [list(x) for x in r[1]]] for r in tr["final"]],
+               "actual": ab.cfg(H)["R"] if exc == "none" else [exc], "src": src}
 
 
 def drive_file(path, lo, hi, stride=1):
